@@ -303,6 +303,52 @@ pub fn report(checks: Checks) -> bool {
     wrong
 }
 
+/// C07 on a cofactor curve: a member whose individual residual is a small-order point (proved over bases shifted by
+/// a small-order point, verified over the unshifted ones).  Its single verdict is "reject"; a batch holding it may
+/// accept only when the random weight happens to annihilate the small-order residual (probability 1/ord per weight
+/// stream), so a batch that accepts under ALL of 16 independent weight streams (chance <= 8^-16 on a tree whose
+/// batch check tests the weighted sum itself) contradicts "batch accepts iff every member verifies".
+pub fn c07_torsion_native<G: AffineRepr + 'static>(seed: u64, torsion: &[G]) -> Checks {
+    use crate::r1cs::*;
+    use ark_bulletproofs::r1cs::*;
+    let mut out: Checks = vec![];
+    let shape = Shape::new("one_gate", &[Op::Commit, Op::AllocMul, Op::Con], &[]);
+    let pc = crate::r1cs::pc_for::<G>("c07-torsion", seed);
+    let bp = BulletproofGens::<G>::new(1, 1);
+    for (ti, t) in torsion.iter().enumerate() {
+        for which in 0..2 {
+            let mut pct = pc;
+            if which == 0 {
+                pct.B_blinding = (pc.B_blinding.into_group() + t.into_group()).into_affine();
+            } else {
+                pct.B = (pc.B.into_group() + t.into_group()).into_affine();
+            }
+            let shr = new_shared::<G>(&shape, &Default::default(), Box::new(PlainVals::<G::ScalarField>::new(HashMap::new(), seed + ti as u64)));
+            let (proof, _) = prove_shape(&shape, &shr, &pct, &bp, seed);
+            let proof = match proof {
+                Ok(p) => p,
+                Err(_) => continue,
+            };
+            // the statement's commitments as the verifier would compute them over the unshifted bases
+            rewind_for_verifier(&shr);
+            let mut vt = new_verifier_transcript(&shape);
+            let single = build_verifier(&shape, &shr, &mut vt).verify(&proof, &pc, &bp).is_ok();
+            let mut accepted = 0;
+            for ws in 0..16u64 {
+                let f = fork_for_verifier(&shape, &shr);
+                let mut vt = new_verifier_transcript(&shape);
+                let v = build_verifier(&shape, &f, &mut vt);
+                let mut wr = rand_chacha::ChaChaRng::seed_from_u64(seed.wrapping_mul(977) ^ ws);
+                if batch_verify(&mut wr, vec![(v, &proof)], &pc, &bp).is_ok() {
+                    accepted += 1;
+                }
+            }
+            out.push((format!("member proved over {} + small-order point #{}: single verdict accept = {}, batch accepted under {} of 16 weight streams (all 16 only if the single verdict is accept)", if which == 0 { "Bblind" } else { "B" }, ti, single, accepted), single || accepted < 16));
+        }
+    }
+    out
+}
+
 /// C07 natively: (a) the all-honest version of the batch must be accepted exactly when every member
 /// is; (b) k copies of one honest proof with final scalar b shifted by d_i (from the model, or a
 /// fixed library of correlated offsets) must be rejected unless every d_i is zero.
